@@ -282,6 +282,34 @@ class TrainerProp(core.Prop):
             PlainMulti(sim=manager, policies={"p": CountingPolicy(0, [], **good)}, policy_mapping_fn=lambda a: "p")
         except AssertionError:
             rep.runtime_failure("aligned policy spaces rejected by the trainer constructor", script)
+        # one policy shared by two agents of which only ONE has the policy's spaces (the fitting one listed first, then
+        # the other way round): every agent is checked against its policy, not every policy against its first agent
+        from abmarl.sim import Agent, AgentBasedSimulation
+        from abmarl.managers import AllStepManager
+
+        class _TwoSpaces(AgentBasedSimulation):
+            def __init__(self, first_fits):
+                fit = Agent(id="fit", **good)
+                odd = Agent(id="odd", **bads[0])
+                self.agents = {"fit": fit, "odd": odd} if first_fits else {"odd": odd, "fit": fit}
+                self.finalize()
+
+            def reset(self, **kw): pass
+            def step(self, action_dict, **kw): pass
+            def render(self, **kw): pass
+            def get_obs(self, agent_id, **kw): return [0, 0, 0, 0]
+            def get_reward(self, agent_id, **kw): return 0
+            def get_done(self, agent_id, **kw): return False
+            def get_all_done(self, **kw): return False
+            def get_info(self, agent_id, **kw): return {}
+        for first_fits in (True, False):
+            try:
+                PlainMulti(sim=AllStepManager(_TwoSpaces(first_fits)), policies={"p": CountingPolicy(0, [], **good)},
+                           policy_mapping_fn=lambda a: "p")
+                rep.runtime_failure("trainer constructor accepted a shared policy whose spaces differ from those of one "
+                                    "of its agents", {"fitting_agent_listed_first": first_fits})
+            except AssertionError:
+                pass
         for bad in bads:
             try:
                 PlainMulti(sim=manager, policies={"p": CountingPolicy(0, [], **good), "q": CountingPolicy(1, [], **bad)},
